@@ -127,11 +127,11 @@ Section Samplers.
 
   (** the hypotheses on the oracles, exactly:
       np.sqrt returns a non-negative number;
-      truncnorm.rvs(a, b, loc, scale) with a <= b returns a value in [loc + a*scale, loc + b*scale];
+      truncnorm.rvs(a, b, loc, scale) with scale > 0 and a <= b returns a value in [loc + a*scale, loc + b*scale];
       uniform(loc, scale).rvs with scale >= 0 returns a value in [loc, loc + scale] *)
   Definition sqrt_nonneg : Prop := forall v, 0 <= sqrtf v.
   Definition tn_in_range : Prop :=
-    forall i r a b loc s, a <= b -> loc + a * s <= tn i r a b loc s /\ tn i r a b loc s <= loc + b * s.
+    forall i r a b loc s, 0 < s -> a <= b -> loc + a * s <= tn i r a b loc s /\ tn i r a b loc s <= loc + b * s.
   Definition uni_in_range : Prop :=
     forall i r loc s, 0 <= s -> loc <= uni i r loc s /\ uni i r loc s <= loc + s.
 
@@ -153,7 +153,7 @@ Section Samplers.
       { destruct (Qlt_le_dec 0 s) as [?|Hle]; auto. exfalso. apply E. apply Qle_antisym; auto. apply Hsq. }
       assert (Hab : tn_a lo xi s <= tn_b hi xi s).
       { unfold tn_a, tn_b, Qdiv. apply Qmult_le_compat_r; [lra|]. apply Qlt_le_weak. now apply Qinv_lt_0_compat. }
-      destruct (Htn i r _ _ xi s Hab) as [H1 H2].
+      destruct (Htn i r _ _ xi s Hs Hab) as [H1 H2].
       assert (Ea : xi + tn_a lo xi s * s == lo) by (unfold tn_a; field; exact E).
       assert (Eb : xi + tn_b hi xi s * s == hi) by (unfold tn_b; field; exact E).
       rewrite Ea in H1. rewrite Eb in H2. auto.
@@ -236,6 +236,17 @@ Section Samplers.
     unfold uniform_row. now apply uniform_row_in_box.
   Qed.
 End Samplers.
+
+(** the oracle hypotheses are satisfiable *)
+Lemma oracles_exist :
+  tn_in_range (fun _ _ a _ loc s => loc + a * s) /\ uni_in_range (fun _ _ loc _ => loc)
+  /\ sqrt_nonneg (fun v => if Qle_bool v 0 then 0 else 1).
+Proof.
+  split; [|split].
+  - intros i r a b loc s Hs Hab. split; [apply Qle_refl|]. apply Qplus_le_r. apply Qmult_le_compat_r; lra.
+  - intros i r loc s Hs. split; lra.
+  - intros v. destruct (Qle_bool v 0); lra.
+Qed.
 
 (** ---- RandMaxVar ---- *)
 Lemma rmv_logpdf_support bs maxvar logf theta :
